@@ -76,6 +76,10 @@ type Store struct {
 	Log   *errLog
 	RBF   *countingRBF
 
+	// FreeHits collects device accesses that touched a block which the allocator had on its free list at that
+	// moment (C04: space is not handed out while a reader or writer of it is still active).
+	FreeHits []string
+
 	keyIDs map[local.Key]int
 }
 
@@ -92,6 +96,20 @@ func NewStore(cfg Config) *Store {
 	if b.Alloc == "dev" {
 		s.Dev = hx.NewMemDevice(blockCount * b.BlockSize())
 		base = local.NewBlockDeviceBackedBlockAllocator(s.Dev, s.RBF, b.Sector, int64(b.SectorsPerBl), blockCount, "verif_stx")
+		check := func(what string, off int64, n int) {
+			free, perBlock, sector, ok := local.VerifFreeBlockOffsets(base)
+			if !ok || n == 0 {
+				return
+			}
+			blockBytes := perBlock * int64(sector)
+			for _, f := range free {
+				if lo, hi := f*int64(sector), f*int64(sector)+blockBytes; off < hi && off+int64(n) > lo {
+					s.FreeHits = append(s.FreeHits, fmt.Sprintf("%s of %d bytes at %d hits block [%d,%d), which is on the allocator's free list", what, n, off, lo, hi))
+				}
+			}
+		}
+		s.Dev.OnWrite = func(off int64, p []byte) { check("write", off, len(p)) }
+		s.Dev.OnRead = func(off int64, n int) { check("read", off, n) }
 	} else {
 		base = local.NewInMemoryBlockAllocator(b.BlockSize())
 	}
